@@ -272,6 +272,8 @@ class C04(vlib.Driver):
                 cases.append({"kind": "e2e", "block": blk, "seed": nseed,
                               "ops": [["clone"], ["train"], ["mut", meth, args_for(meth, effective=True)], ["clone"],
                                       ["mut", second, args_for(second, effective=True)], ["clone"], ["reinit"]]}); nseed += 1
+                if tier == "quick" and len(methods) > 6 and methods.index(meth) % 2 == 0:
+                    continue                               # large method sets: the short chain for every other method only
                 cases.append({"kind": "e2e", "block": blk, "seed": nseed, "ops": [["train"], ["mut", meth, args_for(meth)], ["clone"], ["reinit"]]}); nseed += 1
                 if any(a.startswith("numb_new") for a in argn[meth]) and (tier != "quick" or rng.random() < 0.5):
                     cases.append({"kind": "e2e", "block": blk, "seed": nseed, "ops": [["train"], ["mut", meth, args_for(meth, guard=True)]]}); nseed += 1
